@@ -125,10 +125,11 @@ class Project:
 
 
 def make_project(rng, root, truth, prestates, method=False, rich=False, kinds=KINDS, wild=False, ir=None, stale_ir=None, with_return=False,
-                 via_symlink=False, hand_written=False, extra_same_kind=False):
+                 via_symlink=False, hand_written=False, extra_same_kind=False, crlf_files=False):
     """prestates: {kind: prestate} for the non-truth kinds.
     via_symlink: every file is named through a symlink to the project directory (abspath != realpath).
-    hand_written: definitions that exist beforehand carry a comment (so re-generating them changes bytes)."""
+    hand_written: definitions that exist beforehand carry a comment (so re-generating them changes bytes).
+    crlf_files: about a third of the pre-existing files use CRLF line endings."""
     p = Project(root)
     p.truth, p.method = truth, method
     g = sync_ir_gen(rng, wild, with_return)
@@ -194,8 +195,11 @@ def make_project(rng, root, truth, prestates, method=False, rich=False, kinds=KI
         ending = rng.choice(["\n"] * 14 + ["", "", "", " ", "\t", "\n    ", "\n\n"])
         text += ending
         feats["{}_ending".format("extra" if is_extra else kind)] = {"\n": "newline", "": "none", " ": "space", "\t": "tab", "\n    ": "blank_line_unterminated", "\n\n": "two_newlines"}[ending]
-        with open(fn, "w") as f:
+        crlf = crlf_files and rng.random() < 0.3
+        with open(fn, "w", newline="\r\n" if crlf else None) as f:
             f.write(text)
+        if crlf:
+            feats.setdefault("crlf_files", []).append(os.path.basename(fn))
         if is_extra:
             continue
         feats["{}_func_before".format(kind)] = func_before
